@@ -130,8 +130,25 @@ class DBSpace(data_algebra.data_space.DataSpace):
         assert isinstance(allow_overwrite, bool)
         if key in self.description_map.keys():
             assert allow_overwrite
-            self.remove(key)
-        descr = self.db_handle.create_table(table_name=key, q=ops)
+            # the query may read the table it replaces, and it may fail: build the result under a
+            # scratch name first and swap it in only once it exists
+            self.n_tmp = self.n_tmp + 1
+            scratch = f"da_overwrite_temp_{self.n_tmp}"
+            while scratch in self.description_map.keys():
+                self.n_tmp = self.n_tmp + 1
+                scratch = f"da_overwrite_temp_{self.n_tmp}"
+            self.db_handle.create_table(table_name=scratch, q=ops)
+            try:
+                self.remove(key)
+                descr = self.db_handle.create_table(
+                    table_name=key,
+                    q="SELECT * FROM "
+                    + self.db_handle.db_model.quote_table_name(scratch),
+                )
+            finally:
+                self.db_handle.drop_table(scratch)
+        else:
+            descr = self.db_handle.create_table(table_name=key, q=ops)
         self.description_map[key] = descr
         self.eligable_for_auto_drop_list.add(key)
         return descr
